@@ -32,8 +32,12 @@ assumptions = [
 ]
 trusted = ["hand-written model MptModel/Impl/Reply.lean tied to mptcore/message/message_id.c, event/reply_deferrable.c, "
            "event/reply_set.c by harness/drv_reply.c",
-           "NOT covered: the mptio users of the same scheme (stream_input.c, stream_reply.c, connection_dispatch.c, "
-           "output_remote.c, stream_sync.c) and mpt_context_reply's text formatting"]
+           "the mptio users of the scheme (stream_input.c, stream_reply.c, connection_dispatch.c stream branch, stream_sync.c) and "
+           "mpt++/io_stream.cpp are tied to Impl/Reply.lean (StreamIn, Requester) and the driver-level composition conActs by "
+           "harness/drv_reply.c / drvxx_reply.cpp over socketpairs",
+           "NOT covered: mptio/output_remote.c (not part of any driver), the datagram branch of connection_dispatch.c (needs a "
+           "bound datagram socket with peer addresses), malloc failure inside the reply functions, the by-pointer clone/ref "
+           "methods of the stream's reply context (streamConv clone, streamRef)"]
 
 
 def corpus(chk):
@@ -50,7 +54,9 @@ WIDTHS = list(range(0, 10)) + [16, 300]
 
 A, B = "0102", "0304"
 OPS = ["r arm " + A, "r arm " + B, "r reply 6d31", "r reply none", "r defer", "r dreply 0 6d32", "r dreply 1 6d33",
-       "r drop 0", "r drop 1", "r drop ctx"]
+       "r drop 0", "r drop 1", "r drop ctx", "r creply 3 6869"]
+# less frequent entry points, combined exhaustively only up to length 3
+OPS2 = OPS + ["r arm zero:2", "r arm -", "r probe", "r reref", "r creply -4 -", "r creply 200 61", "r lreply 2 6869", "r lreply -3 -", "r lreply 0 61", "r lreply -129 61"]
 SCHEDS = ["r send", "r send fail", "r send ok fail", "r send fail fail fail fail fail fail fail fail"]
 CLOSE = ["r drop 0", "r drop 1", "r drop ctx"]
 
@@ -74,6 +80,14 @@ def scripts(tier, seed, scale=1):
                 continue
             for si, sch in enumerate(SCHEDS if ln <= 5 else SCHEDS[:2]):
                 out.append(("h:%s/%d" % ("".join("%x" % k for k in seq), si), [sch, "r ctx 2"] + [OPS[k] for k in seq] + CLOSE))
+    for ln in (1, 2, 3):
+        for seq in itertools.product(range(len(OPS2)), repeat=ln):
+            if not any(k >= len(OPS) for k in seq):
+                continue
+            for si, sch in enumerate(SCHEDS[:3]):
+                out.append(("h2:%s/%d" % (".".join("%x" % k for k in seq), si), [sch, "r ctx 2"] + [OPS2[k] for k in seq] + CLOSE))
+    out.append(("h:longtext", ["r send", "r ctx 2", "r arm 0102", "r creply 1 " + "61" * 255, "r arm 0103", "r creply 1 " + "62" * 256,
+                               "r arm 0104", "r creply 1 " + "63" * 300, "r creply 1 61", "r drop ctx"]))
     # stream-input variant over a socketpair: every act list up to length 3 x id kinds x header widths
     ACTS = ["reply:4142", "reply:-", "replynull", "defer", "ret:0", "ret:-4", "ret:5"]
     def ids(w):
@@ -117,6 +131,9 @@ def scripts(tier, seed, scale=1):
                 for j, i in enumerate(order):
                     lines.append("c req %s%02x ret:0" % (mk(w, i), 0x41 + j))
                 lines += ["c req %s66 discard" % mk(w, j + 1) for j in range(n)] + ["c req %s05 discard" % ("00" * (w - 1) if w else "")]
+                if w == 9:
+                    # a reply whose id does not decode (9 significant bytes) while handlers wait
+                    lines += ["c req 81" + "ff" * 8 + "41 ret:0", "c req 81" + "ff" * 8 + "42 discard"]
                 lines += ["c await 20", "c await 21", "c send 7a", "c req %s55 reply:41" % mk(w, n + 1), "c req %s01%s reply:4142" % ("00" * (w - 1), ""), "c close"]
                 out.append(("cr:%d/%d/%s" % (w, n, "".join(map(str, order))), lines))
     out.append(("s:long", ["s open 2", "s req 0007" + "61" * 300 + " reply:" + "62" * 300, "s req 0008" + "00" * 40 + " ret:-1", "s close",
@@ -130,7 +147,7 @@ def scripts(tier, seed, scale=1):
                  "r ctx %d%s" % (w, " noptr" if r.random() < 0.1 else "")]
         nh = 0
         for _ in range(r.choice([6, 10, 14])):
-            kind = r.choice(["arm", "arm", "reply", "reply", "defer", "dreply", "dreply", "drop", "dropctx", "send", "bad", "id"])
+            kind = r.choice(["arm", "arm", "reply", "reply", "defer", "dreply", "dreply", "drop", "dropctx", "send", "bad", "id", "creply", "misc"])
             msg = r.choice(["none", "-", "61", gen.hexs([r.randrange(256) for _ in range(r.choice([1, 2, 5]))])])
             if kind == "arm":
                 ln = min(r.choice([w, w, w, max(0, w - 1), w + 1, 0]), 40)
@@ -140,6 +157,10 @@ def scripts(tier, seed, scale=1):
             elif kind == "defer":
                 lines.append("r defer")
                 nh += 1
+            elif kind == "creply":
+                lines.append("r creply %d %s" % (r.choice([0, 1, -1, -4, 127, -128, 128, 300]), gen.hexs([r.randrange(1, 256) for _ in range(r.choice([0, 1, 5]))])))
+            elif kind == "misc":
+                lines.append(r.choice(["r probe", "r reref", "r arm zero:%d" % r.choice([0, 1, w, w + 1]), "r creply x 61", "r creply 1 6100"]))
             elif kind == "dreply":
                 lines.append("r dreply %d %s" % (r.randrange(nh + 1), msg))
             elif kind == "drop":
